@@ -32,6 +32,15 @@ type limCase struct {
 const hugeCPU = 4_000_000_000
 
 func run(c limCase, cpu uint64) *harness.Trace {
+	// the in-flight marker carries the limit (a crash under a limit does not
+	// reproduce without it)
+	mc := c
+	mc.Limit = cpu
+	if mc.Kind == "" {
+		mc.Kind = "intercept"
+	}
+	progcheck.SkipInflight = true
+	progcheck.MarkInflight(mc.Kind, mc)
 	return progcheck.RunGolua(progcheck.Case{Source: c.Source, Args: c.Args}, harness.Opts{CPU: cpu, Mem: c.Mem})
 }
 
